@@ -431,13 +431,13 @@ def harnesses(tier):
     q = tier == 'quick'
     TR = 7 if q else 31
     return [
-        Harness('intersection', 'area', h_intersect, mode='INT', opaque_fp=True, sanitize=True, reach=('end', 'crossing', 'none', 'overlap'), testgen=gen('ab', 6), wall=900,
+        Harness('intersection', 'area', h_intersect, mode='INT', opaque_fp=True, sanitize=True, reach=('end', 'crossing', 'none', 'overlap'), testgen=gen('ab', 6), wall=900, qtimeout=15,
                 desc='calculate_intersection on two segments with symbolic end points: an intersection point is computed iff the segments are non-parallel, have a common point and no shared end point (orientation-test reference in exact integer arithmetic); an overlap is reported only for collinear segments; no signed overflow in the 64-bit products',
                 bounds='coordinates within +-2^29 (the documented range); the floating-point computation of the point itself is opaque'),
-        Harness('segment_order', 'area', h_order, mode='INT', jobs=[dict(axiom='equivalence', range=R)], testgen=gen('ab', 4), wall=900,
+        Harness('segment_order', 'area', h_order, mode='INT', jobs=[dict(axiom='equivalence', range=R)], testgen=gen('ab', 4), wall=900, qtimeout=15,
                 desc='operator< on NodeRefSegment: irreflexive, asymmetric, and incomparable exactly when operator== holds (what duplicate detection after sorting relies on)',
                 bounds='coordinates within +-2^29'),
-        Harness('sweep_pruning', 'area', h_prune, mode='INT', opaque_fp=True, jobs=[dict(what='x'), dict(what='y')], reach=('end', 'pruned'), testgen=gen('ab', 6), wall=900,
+        Harness('sweep_pruning', 'area', h_prune, mode='INT', opaque_fp=True, jobs=[dict(what='x'), dict(what='y')], reach=('end', 'pruned'), testgen=gen('ab', 6), wall=900, qtimeout=15,
                 desc='soundness of the sweep shortcuts: if outside_x_range(s2, s1) holds, or the y ranges do not overlap, calculate_intersection reports nothing for the pair', bounds='coordinates within +-2^29'),
         Harness('assemble_way', 'assemble', h_assemble_way, mode='INT', opaque_fp=True, reach=('end', 'assembled', 'rejected'), wall=1500,
                 jobs=[dict(ids=[1, 2, 3, 1], range=2), dict(ids=[1, 2, 3, 4, 1], range=2, fixed={1: (1, 1)})] if q else
